@@ -31,6 +31,10 @@ THEOREMS = ["Pt.Dist.progress", "Pt.Dist.decreasing", "Pt.Dist.execution_bounded
 
 def exec_signature(what: str, patterns: dict) -> str:
     kind = what.split(":")[0]
+    if kind == "wrong-value" and patterns.get("output_named_like_input"):
+        # an overall output that carries the name of a user input is written into the one
+        # `context` namespace and shadows the input for parts that run later
+        return "exec:wrong-value:output-name-shadows-input"
     if kind == "raised":
         parts = what.split(":")
         exc = parts[2] if len(parts) > 2 else "?"
